@@ -1,5 +1,7 @@
 import ClusterVerif.Gen.C18
 import ClusterVerif.Lemmas.C18
+import ClusterVerif.Model.C18Source
+import ClusterVerif.Lemmas.C18Sync
 
 /-!
 # C18 — concurrent use of the API never races, panics, deadlocks or tears results
@@ -305,6 +307,46 @@ theorem acyclic_no_deadlock (rank : Mutex → Nat) (progs : List (List Act))
       rw [hxm] at hlt
       omega
 
+/-- Summaries and calling contexts are sound for the script model: let every function body pass the
+modular lockset check in every calling context recorded for it (`modOK`: accesses against the
+locks held so far, each call site's lockset must itself be a recorded context of the callee, the
+body returns with the locks it was entered with). Then the script obtained by INLINING all calls
+(to any depth at which inlining succeeds; recursion beyond the bound yields `none`, never a script)
+passes the flat check `lockOK` from each of its contexts, and is balanced. -/
+theorem inline_preserves_lockOK (L : Loc → Mutex) (P : List Body) (ctxs : Nat → List Held)
+    (hmod : ∀ f H, H ∈ ctxs f → modOK L ctxs H H (P.getD f []) = true)
+    (fuel f : Nat) (H : Held) (acts : List Act) (hH : H ∈ ctxs f) (hin : inlineFn P fuel f = some acts) :
+    lockOK L H acts = true ∧ acts.foldl after H = H := by
+  induction fuel generalizing f H acts with
+  | zero => simp [inlineFn] at hin
+  | succ n ih =>
+    simp only [inlineFn] at hin
+    exact inlineWith_ok L ctxs (inlineFn P n) (fun g H' a' hg ha => ih g H' a' hg ha) H (P.getD f []) H acts (hmod f H hH) hin
+
+/-- … so a program whose threads are root functions (entered with nothing held: `[] ∈ ctxs f`) has
+only well-locked, disciplined executions once its calls are inlined: `static_disciplined`, hence
+`lockset_drf`, apply to it. -/
+theorem inlined_program_disciplined (L : Loc → Mutex) (P : List Body) (ctxs : Nat → List Held)
+    (hmod : ∀ f H, H ∈ ctxs f → modOK L ctxs H H (P.getD f []) = true)
+    (fuel : Nat) (rootsL : List Nat) (hroot : ∀ f ∈ rootsL, [] ∈ ctxs f)
+    (progs : List (List Act)) (hprogs : ∀ p ∈ progs, ∃ f ∈ rootsL, inlineFn P fuel f = some p)
+    (sch : List Nat) (s : Sys) (evs : List Ev) (hrun : (Sys.init progs).run sch = some (s, evs)) :
+    wellLocked evs = true ∧ disciplined L evs = true := by
+  refine static_disciplined L progs (fun p hp => ?_) sch s evs hrun
+  obtain ⟨f, hf, hin⟩ := hprogs p hp
+  exact (inline_preserves_lockOK L P ctxs hmod fuel f [] p (hroot f hf) hin).1
+
+/-- non-vacuity: `Filter`-like root 0 takes mutex 1 shared and calls helper 1, which reads location 9
+(guarded by mutex 1) relying on its caller's lock; contexts: root `[]`, helper `[(1, sh)]` -/
+example :
+    let P : List Body := [[.act (.acq 1 .sh), .call 1, .act (.rel 1)], [.act (.rd 9)]]
+    let ctxs : Nat → List Held := fun f => if f = 0 then [[]] else [[(1, .sh)]]
+    modOK (fun _ => 1) ctxs [] [] (P.getD 0 []) = true ∧ modOK (fun _ => 1) ctxs [(1, .sh)] [(1, .sh)] (P.getD 1 []) = true
+      ∧ inlineFn P 2 0 = some [.acq 1 .sh, .rd 9, .rel 1] ∧ inlineFn P 1 0 = none := by decide
+
+/-- … and the helper writing instead of reading is rejected in that context (RLock held by the caller) -/
+example : modOK (fun _ => 1) (fun _ => [[(1, .sh)]]) [(1, .sh)] [(1, .sh)] [.act (.wr 9)] = false := by decide
+
 /-- a non-trivial program meeting both static checks: two threads nesting mutexes 1 → 2 -/
 example :
     let progs : List (List Act) :=
@@ -418,7 +460,19 @@ example : ((PairRead.run true [false, true, false]).gotPhase, (PairRead.run true
 every designated field and mutex is still declared, immutable fields are never written outside
 their constructor literal, and the crdt batching state is published to its only reader by the go
 statement that follows its only write -/
-theorem gen_table_disciplined : tableOK Gen.guards Gen.spawns Gen.accesses = true := by decide
+theorem gen_table_disciplined :
+    tableOK Gen.guards Gen.spawns Gen.accesses Gen.contexts Gen.callEdges Gen.roots Gen.fnFacts = true := by decide +kernel
+
+/-- every reference taken out of a guarded structure that leaves its function (returned, sent on a
+channel, stored elsewhere) is a value copy, a fresh container of values, or points to objects
+with their own lock in the table / to payloads never written after insertion -/
+theorem gen_escapes_copied : escapesOK Gen.escapes = true := by decide
+
+/-- the interprocedural part of the table is not vacuous: some context carries a caller's lock
+into a callee, and some context binds a parameter to guarded data (`filterOpsMap(ctx, opt.operations, …)`) -/
+theorem gen_contexts_nonempty :
+    Gen.contexts.any (fun c => !c.locks.isEmpty) = true ∧ Gen.contexts.any (fun c => !c.binds.isEmpty) = true
+      ∧ Gen.accesses.any (fun a => a.param != 0) = true ∧ 3 ≤ Gen.escapes.length := by decide
 
 /-- the graph of nested acquisitions (direct, or through resolved calls and interface
 implementers) is acyclic: `rankOf` is a strict order along every edge -/
@@ -442,6 +496,166 @@ theorem acyclicB_rank (edges : List (Nat × Nat)) (h : acyclicB edges = true) :
   refine ⟨rankOf edges, fun e he => ?_⟩
   have := List.all_eq_true.mp h e he
   simpa using this
+
+/-! ## 4'. the source text of the functions the synchronisation models transcribe is the snapshot they were read from -/
+
+theorem gen_source_stateless_New : Gen.Src.stateless_New = Expected.stateless_New := rfl
+theorem gen_source_stateless_Tracker_opWorker : Gen.Src.stateless_Tracker_opWorker = Expected.stateless_Tracker_opWorker := rfl
+theorem gen_source_stateless_Tracker_enqueue : Gen.Src.stateless_Tracker_enqueue = Expected.stateless_Tracker_enqueue := rfl
+theorem gen_source_stateless_Tracker_SetClient : Gen.Src.stateless_Tracker_SetClient = Expected.stateless_Tracker_SetClient := rfl
+theorem gen_source_stateless_Tracker_Shutdown : Gen.Src.stateless_Tracker_Shutdown = Expected.stateless_Tracker_Shutdown := rfl
+theorem gen_source_crdt_New : Gen.Src.crdt_New = Expected.crdt_New := rfl
+theorem gen_source_crdt_Consensus_setup : Gen.Src.crdt_Consensus_setup = Expected.crdt_Consensus_setup := rfl
+theorem gen_source_crdt_Consensus_Shutdown : Gen.Src.crdt_Consensus_Shutdown = Expected.crdt_Consensus_Shutdown := rfl
+theorem gen_source_crdt_Consensus_SetClient : Gen.Src.crdt_Consensus_SetClient = Expected.crdt_Consensus_SetClient := rfl
+theorem gen_source_crdt_Consensus_Ready : Gen.Src.crdt_Consensus_Ready = Expected.crdt_Consensus_Ready := rfl
+theorem gen_source_crdt_Consensus_LogPin : Gen.Src.crdt_Consensus_LogPin = Expected.crdt_Consensus_LogPin := rfl
+theorem gen_source_crdt_Consensus_LogUnpin : Gen.Src.crdt_Consensus_LogUnpin = Expected.crdt_Consensus_LogUnpin := rfl
+theorem gen_source_crdt_Consensus_batchWorker : Gen.Src.crdt_Consensus_batchWorker = Expected.crdt_Consensus_batchWorker := rfl
+theorem gen_source_cluster_Cluster_run : Gen.Src.cluster_Cluster_run = Expected.cluster_Cluster_run := rfl
+theorem gen_source_cluster_Cluster_ready : Gen.Src.cluster_Cluster_ready = Expected.cluster_Cluster_ready := rfl
+theorem gen_source_cluster_Cluster_Ready : Gen.Src.cluster_Cluster_Ready = Expected.cluster_Cluster_Ready := rfl
+theorem gen_source_cluster_Cluster_Shutdown : Gen.Src.cluster_Cluster_Shutdown = Expected.cluster_Cluster_Shutdown := rfl
+theorem gen_source_cluster_Cluster_Done : Gen.Src.cluster_Cluster_Done = Expected.cluster_Cluster_Done := rfl
+theorem gen_source_cluster_Cluster_watchPeers : Gen.Src.cluster_Cluster_watchPeers = Expected.cluster_Cluster_watchPeers := rfl
+
+/-! ## 4''. synchronisation beyond mutexes: channels, WaitGroups, cancellation, go statements
+
+Proofs in `Lemmas/C18Sync.lean`; semantics in `Model/C18Sync.lean`, the three transcribed protocols in `Model/C18SyncProgs.lean`. -/
+
+open Sync Sync.Progs in
+/-- `sync_drf`: in ANY trace (any length, any number of threads), two memory accesses of different
+threads that are ordered by ANY chain of program-order and synchronisation edges (mutex release →
+acquisition, n-th send → n-th receive, close → receive-of-zero, `Done` → `Wait`, `cancel` →
+`<-ctx.Done()`, go statement → started goroutine) are separated by a release-type event of the
+first thread and a later acquire-type event (or the start) of the second — the generalisation of
+`lockset_drf`'s conclusion from the lock edge to every edge kind. -/
+theorem sync_drf {tr : List SEv} {i j : Nat} {ei ej : SEv} {ai aj : Tid × Sync.Loc × Bool}
+    (h : HB tr i j) (hi : tr[i]? = some ei) (hj : tr[j]? = some ej) (hne : ei.tid ≠ ej.tid)
+    (hai : isAccess ei = some ai) (haj : isAccess ej = some aj) :
+    ∃ p q, i < p ∧ p < q ∧ q ≤ j ∧
+      (∃ ep, tr[p]? = some ep ∧ ep.tid = ei.tid ∧ isRelease ep = true) ∧
+      (∃ ea, tr[q]? = some ea ∧ ea.tid = ej.tid ∧
+        ((isAcquire ea = true ∧ q < j) ∨ ∃ r t', p ≤ r ∧ r < q ∧ tr[r]? = some (.spawn t' ea.tid))) :=
+  sync_drf_core h hi hj hne hai haj
+
+open Sync in
+/-- … in particular such accesses are never adjacent: they are not a race in the operational sense
+(conflicting accesses simultaneously enabled) -/
+theorem sync_ordered_not_adjacent {tr : List SEv} {i j : Nat} {ei ej : SEv} {ai aj : Tid × Sync.Loc × Bool}
+    (h : HB tr i j) (hi : tr[i]? = some ei) (hj : tr[j]? = some ej) (hne : ei.tid ≠ ej.tid)
+    (hai : isAccess ei = some ai) (haj : isAccess ej = some aj) : j ≠ i + 1 :=
+  hb_not_adjacent h hi hj hne hai haj
+
+open Sync in
+/-- the edges are facts of the operational semantics, not conventions: in every execution a
+receive-of-zero comes after a close of that channel, an observed cancellation after the cancel, an
+event of a started goroutine after its go statement, and at every prefix the receives of a channel
+do not outnumber its sends (so the n-th receive has its n-th send before it) -/
+theorem sync_edges_operational {P : List Code} {cfg : Cfg} {init s : Nat} {sched : List Choice} {evs : List SEv}
+    (hok : progOk P cfg = true) (h : run P cfg init sched = some (s, evs)) :
+    (∀ (c : Chan) (t : Tid) (j : Nat), c < cfg.caps.length → dig init (oClosed cfg c) = 0 → evs[j]? = some (SEv.recvZero t c) →
+        ∃ i t', i < j ∧ evs[i]? = some (SEv.close t' c))
+    ∧ (∀ (k : Sync.Ctx) (t : Tid) (j : Nat), k < cfg.nCtx → dig init (oCtx cfg k) = 0 → evs[j]? = some (SEv.done t k) →
+        ∃ i t', i < j ∧ evs[i]? = some (SEv.cancel t' k))
+    ∧ (∀ (e : SEv) (j : Nat), evs[j]? = some e → e.tid < cfg.nT → dig init (oPc cfg e.tid) = 0 →
+        ∃ i t', i < j ∧ evs[i]? = some (SEv.spawn t' e.tid))
+    ∧ (∀ (c : Chan) (k : Nat), c < cfg.caps.length → cfg.caps.getD c 0 < B → dig init (oLen cfg c) = 0 →
+        countBefore evs (isRecvOn c) k ≤ countBefore evs (isSendOn c) k) :=
+  ⟨fun c t j hc h0 hj => recvZero_after_close hok hc h0 h hj,
+   fun k t j hk h0 hj => done_after_cancel hok hk h0 h hj,
+   fun e j hj hu h0 => spawned_after_spawn hok h hj hu h0,
+   fun c k hc hcap h0 => recv_after_send hok hc hcap h0 h k⟩
+
+open Sync in
+/-- exhaustive exploration is sound: a set that contains the initial state, is closed under every
+step of every thread and passes the three checks bounds EVERY execution: no run-time panic of a
+synchronisation primitive (send on / close of a closed channel, negative WaitGroup counter, unlock
+of an unlocked mutex), no deadlock (all threads finished or some thread can move), no racy state -/
+theorem sync_exploration_sound {P : List Code} {cfg : Cfg} {T : NSet} {init : Nat}
+    (h0 : T.mem init = true) (hc : closedB P cfg T = true) (hs : safeB P cfg T.toList = true) :
+    ∀ (sched : List Choice) (s : Nat) (evs : List SEv), run P cfg init sched = some (s, evs) →
+      panicCode s = 0 ∧ (allFinished P cfg s = true ∨ ∃ c : Choice, (stepC P cfg s c).isSome = true) ∧
+      racyB P cfg s = false :=
+  safe_all_interleavings h0 hc hs
+
+open Sync in
+/-- a panicked end state means the LAST event of the trace is that panic and no earlier one is: "no
+reachable panicked state" = "no execution ever sends on a closed channel, closes a closed channel, …" -/
+theorem sync_panic_is_event {P : List Code} {cfg : Cfg} (sched : List Choice) (s s' : Nat) (evs : List SEv)
+    (h : run P cfg s sched = some (s', evs)) (h0 : panicCode s = 0) :
+    (panicCode s' = 0 ∧ ∀ e ∈ evs, isPanic e = false) ∨
+    (∃ t evs0, evs = evs0 ++ [.panic t (panicCode s')] ∧ panicCode s' ≠ 0 ∧ ∀ e ∈ evs0, isPanic e = false) :=
+  run_panic sched s s' evs h h0
+
+open Sync Sync.Progs in
+/-- (a) the stateless pin tracker IN USE (constructor, `SetClient`, then `Track`/`Untrack` callers,
+the `opWorker`, two concurrent `Shutdown`s), ALL interleavings (297 states): no send on a closed
+channel, no double close, no deadlock, no unsynchronised access to `spt.shutdown` -/
+theorem tracker_shutdown_safe : ∀ (sched : List Choice) (s : Nat) (evs : List SEv),
+    run progA (cfgA 5) initA sched = some (s, evs) →
+      panicCode s = 0 ∧ (allFinished progA (cfgA 5) s = true ∨ ∃ c : Choice, (stepC progA (cfgA 5) s c).isSome = true) ∧
+      racyB progA (cfgA 5) s = false := progA_safe
+
+open Sync Sync.Progs in
+/-- (b) the crdt consensus component IN USE (`New`, `SetClient`, `<-Ready()`, then `LogPin` callers,
+`setup`, `batchWorker`, two concurrent `Shutdown`s), ALL interleavings (390 states) -/
+theorem crdt_shutdown_safe : ∀ (sched : List Choice) (s : Nat) (evs : List SEv),
+    run progB (cfgB 6) initB sched = some (s, evs) →
+      panicCode s = 0 ∧ (allFinished progB (cfgB 6) s = true ∨ ∃ c : Choice, (stepC progB (cfgB 6) s c).isSome = true) ∧
+      racyB progB (cfgB 6) s = false := progB_safe
+
+/-- (c) FULL statement for `Cluster`: the faithful transcription `progC0` (NewCluster's goroutine running
+`ready()`, `watchPeers`, three `Shutdown`s, a `<-Ready()` user, a `<-Done()` waiter) is safe under all
+interleavings. REFUTED below (`cluster_shutdown_full_fails`): finding K18b. -/
+def cluster_shutdown_full : Prop :=
+  ∀ (sched : List Sync.Choice) (s : Nat) (evs : List Sync.SEv),
+    Sync.run Sync.Progs.progC0 (Sync.Progs.cfgC 8) Sync.Progs.initC sched = some (s, evs) →
+      Sync.panicCode s = 0 ∧
+      (Sync.allFinished Sync.Progs.progC0 (Sync.Progs.cfgC 8) s = true ∨
+        ∃ c : Sync.Choice, (Sync.stepC Sync.Progs.progC0 (Sync.Progs.cfgC 8) s c).isSome = true) ∧
+      Sync.racyB Sync.Progs.progC0 (Sync.Progs.cfgC 8) s = false
+
+open Sync Sync.Progs in
+/-- (c) what holds: with `ready()` leaving through `ctx.Done()` (Shutdown before consensus is ready,
+or after `ready()` returned) and `watchPeers` not taking its removal branch: all interleavings of
+three `Shutdown`s, `watchPeers`, `ready`, the `<-Ready()` user and the `<-Done()` waiter are safe (254 states) -/
+theorem cluster_shutdown_safe_partial : ∀ (sched : List Choice) (s : Nat) (evs : List SEv),
+    run progC00 (cfgC 8) initC sched = some (s, evs) →
+      panicCode s = 0 ∧ (allFinished progC00 (cfgC 8) s = true ∨ ∃ c : Choice, (stepC progC00 (cfgC 8) s c).isSome = true) ∧
+      racyB progC00 (cfgC 8) s = false := progC00_safe
+
+open Sync Sync.Progs in
+/-- FINDING K18b: `Cluster.Shutdown` racing `ready()` deadlocks — `ready()` (in the goroutine counted
+in `c.wg`) is between `close(c.readyCh)` and `c.shutdownLock.Lock()` when a `Shutdown` takes the lock
+and reaches `c.wg.Wait()`. Replayed on the real code by soak `clusterearly`. -/
+theorem cluster_shutdown_full_fails : ¬ cluster_shutdown_full := by
+  intro hfull
+  obtain ⟨s, evs, hrun, _, hnf, hstuck⟩ := progC0_deadlocks
+  obtain ⟨_, hlive, _⟩ := hfull schedC0 s evs hrun
+  rcases hlive with h | ⟨c, hc⟩
+  · rw [h] at hnf; cases hnf
+  · rw [hstuck c] at hc; cases hc
+
+open Sync Sync.Progs in
+/-- the same deadlock shape through `watchPeers` (it takes `shutdownLock` in a goroutine counted in `c.wg`) -/
+theorem cluster_watchpeers_deadlock : ∃ s evs, run progC (cfgC 8) initC schedC = some (s, evs) ∧
+    panicCode s = 0 ∧ allFinished progC (cfgC 8) s = false ∧ ∀ c : Choice, stepC progC (cfgC 8) s c = none :=
+  progC_deadlocks
+
+open Sync Sync.Progs in
+/-- usages OUTSIDE "in use", refuted by one schedule each: `SetClient` concurrent with `Shutdown` sends
+on the closed `rpcReady` (a1, b2); a second `SetClient` blocks forever, `rpcReady` has capacity 1 and
+no receiver in the tracker (a2); crdt `Shutdown` before `<-Ready()` races with `setup` on `css.crdt` (b1);
+and what the mutex buys: `Shutdown` without `shutdownMu` closes `rpcReady` twice (a3) -/
+theorem misuse_refuted :
+    (∃ s evs, run progA1 (cfgA 2) (mkInit (cfgA 2) [0]) schedA1 = some (s, evs) ∧ panicCode s = 1 ∧ evs.getLast? = some (.panic 0 1))
+    ∧ (∃ s evs, run progA2 (cfgA 1) (mkInit (cfgA 1) [0]) schedA2 = some (s, evs) ∧
+        panicCode s = 0 ∧ allFinished progA2 (cfgA 1) s = false ∧ ∀ c : Choice, stepC progA2 (cfgA 1) s c = none)
+    ∧ (∃ s evs, run progA3 (cfgA 3) (mkInit (cfgA 3) [0]) schedA3p = some (s, evs) ∧ panicCode s = 2 ∧ evs.getLast? = some (.panic 2 2))
+    ∧ (∃ s evs, run progB1 (cfgB 4) (mkInit (cfgB 4) [0]) schedB1 = some (s, evs) ∧ racyB progB1 (cfgB 4) s = true)
+    ∧ (∃ s evs, run progB2 (cfgB 2) (mkInit (cfgB 2) [0]) schedB2 = some (s, evs) ∧ panicCode s = 1 ∧ evs.getLast? = some (.panic 0 1)) :=
+  ⟨progA1_panics, progA2_deadlocks, progA3_panics, progB1_racy, progB2_panics⟩
 
 /-! ## 5. the Bool clauses mean what the statement says -/
 
